@@ -376,16 +376,33 @@ def cycle_cap(cfg, stim):
     return 300 + 2 * cyc
 
 
+def idle_limit(stim):
+    """longest period without any handshake / native event that the testbench itself can cause, with margin"""
+    sl = stim.get("slave", {})
+    n = max((sl.get("wlat") or [3]) + (sl.get("rlat") or [5])) + max((_norm(sl.get("ready")) or [0, 0])[1::2])
+    for spec in (stim.get("b_ready"), stim.get("r_ready")):
+        n += (spec + 2) if isinstance(spec, int) else max((_norm(spec) or [0, 0])[1::2])
+    n += max([op.get("gap", 0) + abs(op.get("wrel", 0)) + max(op.get("wgap") or [0]) for op in stim["ops"]] or [0])
+    return 100 + 2 * n
+
+
 def run_axi(cfg, stim, backend="fast", max_cycles=None, trace=None):
+    """runs until the master has finished and the slave is idle for 16 cycles, or until the cap (proportional to the number
+    of beats) is reached, or until nothing at all has happened on the five AXI channels and the native port for idle_limit
+    cycles (a deadlocked bridge is reported without simulating the whole cap)"""
     dut, sim = get_sim(cfg, backend)
     sl = stim.get("slave", {})
     slave = NativeSlave([dut.port], ready_pattern=sl.get("ready"), wlat=sl.get("wlat"), rlat=sl.get("rlat"), qmax=sl.get("qmax", 8))
     master = AXIMaster(dut.axi, cfg, stim)
     cap = max_cycles or cycle_cap(cfg, stim)
+    lim = idle_limit(stim)
     obs = dut.observed() if trace is not None else None
     t = 0
     quiet = 0
     done = False
+    sig = None
+    last_act = 0
+    m = master
     while t < cap:
         if obs is not None:
             trace.append([sim.get(s) for s in obs])
@@ -400,8 +417,15 @@ def run_axi(cfg, stim, backend="fast", max_cycles=None, trace=None):
                 break
         else:
             quiet = 0
+            ns = (m.aw_i, m.w_i, m.w_j, len(m.b_log), m.ar_i, len(m.r_log), len(slave.log), m.aw_cur, m.ar_cur, m.w_cur)
+            if ns != sig:
+                sig = ns
+                last_act = t
+            elif t - last_act > lim and max_cycles is None:
+                break
     r = AXIRun()
     r.cfg, r.stim, r.dut, r.master, r.slave, r.cycles, r.completed, r.cap = cfg, stim, dut, master, slave, t, done, cap
+    r.idle_stop = (not done) and t < cap
     return r
 
 
@@ -487,11 +511,11 @@ def oracle_axi(run, P="C09"):
                     prev = cmds[wci[gi] - 1] if gi < len(wci) and wci[gi] > 0 else None
                     t_rmw = prev[1] if (prev is not None and not prev[3]) else (wcmd_t[gi] if gi < len(wcmd_t) else None)
                     if m.acc_t[kk] is None or (t_rmw is not None and t_rmw <= m.acc_t[kk]):
-                        labels.append("rmw_started_before_aw")           # partial beat processed before its AW reached the bridge
+                        labels.append("rmw_merge_not_on_own_word:started_before_aw")           # partial beat processed before its AW reached the bridge
                     elif any(e[4] == merge(old, d, st) for h in range(max(0, gi - wd - 2), gi) for old in hist.get(wbeats[h][3], []) + [cur(wbeats[h][3])]):
-                        labels.append("rmw_merged_with_word_of_earlier_buffered_beat")
+                        labels.append("rmw_merge_not_on_own_word:word_of_earlier_buffered_beat")
                     else:
-                        labels.append("rmw_wrong_merge")
+                        labels.append("rmw_merge_not_on_own_word:other")
             hist.setdefault(e[3], []).append(cur(e[3]))
             memsim[e[3]] = merge(cur(e[3]), e[4], e[5])
     # native write commands accepted whose data phase has not happened yet
@@ -500,8 +524,8 @@ def oracle_axi(run, P="C09"):
     for t, kind in ev:
         cur += 1 if kind == 0 else -1
         mx = max(mx, cur)
-    if mx > wd:
-        labels.append("native_writes_outstanding_gt_wdepth")
+    if mx > wd and (wd + 1) & wd == 0:
+        labels.append("native_writes_outstanding_reach_wdepth_plus_1_pow2")     # wdepth + 1 = 2**n outstanding native writes
     # write bursts between the native command of their first beat and the native data phase of their last beat
     ev = []
     for i in range(len(cum)):
@@ -665,8 +689,8 @@ def oracle_axi(run, P="C09"):
     # ---- completion --------------------------------------------------------------------------------------
     if not run.completed:
         out = m.outstanding()
-        fs.append(dict(clause=P + ".incomplete", key=key("+".join(out) if out else "native"), what="not finished after %d cycles (cap for %d beats): outstanding %s; AW %d/%d W-bursts %d/%d B %d/%d AR %d/%d R-bursts %d/%d, native slave idle=%s" % (
-            run.cycles, nbeats_of(stim), out, m.aw_i, len(m.wr), m.w_i, len(m.wr), len(m.b_log), len(m.wr), m.ar_i, len(m.rd), m.r_k, len(m.rd), s.idle())))
+        fs.append(dict(clause=P + ".incomplete", key=key("+".join(out) if out else "native"), what="not finished after %d cycles (%s): outstanding %s; AW %d/%d W-bursts %d/%d B %d/%d AR %d/%d R-bursts %d/%d, native slave idle=%s" % (
+            run.cycles, ("no handshake or native event for the last %d cycles" % idle_limit(stim)) if run.idle_stop else ("cap for %d beats" % nbeats_of(stim)), out, m.aw_i, len(m.wr), m.w_i, len(m.wr), len(m.b_log), len(m.wr), m.ar_i, len(m.rd), m.r_k, len(m.rd), s.idle())))
     else:
         # ---- final memory ----------------------------------------------------------------------------------
         touched = set(x // nb for x in chain)
